@@ -142,7 +142,7 @@ def handlers(ctx):
         shiftform = oc["mnemonic"] in ("Shl", "Shr", "Sar", "Sal") and ("imm8" in oc["kinds"] or "cl" in oc["kinds"])
         for shape in shapes:
             inst = "Code=%s/%s" % (code, shape[0]) if len(shapes) > 1 else "Code=%s" % code
-            outs, I = hm.run(code, shape)
+            outs, I = hm.run(code, shape, mem_fail_paths=True)
             n += 1
             reported = {}
             da = {}
